@@ -15,6 +15,10 @@ CHECKS = {
    technique="TLA+ model of Do's receive loop (TLC exhaustive over bounded scripts) + scripted server streams replayed on the real client, callbacks and returned exception chain validated step by step by TLC (trace validation)",
    text="TLC checks Delivered (callback log = exactly the callbacks the consumed packets call for, in order), NilOnlyAfterEos and ExcReturned on the model; random well-formed scripts up to length 12 (quick) / 30 (thorough), every callback present or absent, a failing callback at every position, all compression modes and several revisions run on the real client; each receiver step's callbacks (with the script item whose rows the bound columns hold), the error class, the recovered exception chain and errors.Is for every code are validated against the specification.",
    note="Trusted: TLC; the scripted server encodes packets with ch-go's own encoders (their layout is C17's subject); recording callbacks identify a block by its rows."),
+ "C05": dict(engine="Frames", category="model_checking", design_ref="DESIGN.md §5 C05",
+   technique="TLA+ model of the compressed-frame reader over abstract streams with classified alterations (TLC exhaustive) + concrete streams (every payload length, method, builder; every single-byte alteration and every cut offset; forged size fields) read back through compress.Reader / proto.Reader, every Read validated by TLC (trace validation)",
+   text="TLC checks OnlyVerified, Ordered and RoundTrip over all streams of up to 3 frames with any alteration class and all read-size sequences; on the real reader every payload length up to 600 (quick) / 4096 (thorough) plus MiB payloads, all methods and LZ4HC levels, frames built by compress.Writer and by an independent builder, every single-byte alteration at every offset (2-4 masks), every cut position and forged size fields are read with many read sizes, continuing after errors; each Read's byte count, origin of the bytes and error class (CorruptedDataErr with both checksums when the lengths are intact) is validated, as is the header of every frame compress.Writer produces.",
+   note="Trusted: TLC; go-faster/city, pierrec/lz4, klauspost/compress called directly by the harness (not specified in TLA+); the harness' search for where returned bytes occur in the known payloads."),
  "C09": dict(engine="QueryLifecycle", category="model_checking", design_ref="DESIGN.md §5 C09",
    technique="TLA+ model of Do's send loop with input-contents versions (TLC exhaustive) + every bounded OnInput history executed on the real client with snapshots taken inside the callback, wire blocks matched to snapshots and validated by TLC (trace validation)",
    text="Every OnInput history up to 2 (quick) / 3 (thorough) nil-returning calls followed by a terminal call, over keep/append/reset/reset+append/overwrite-in-place and nil/io.EOF/wrapped io.EOF/error, initial rows zero or not, with a zero-copy and a copying column, across compression modes; TLC validates that block k on the wire holds the contents of round k, exactly one terminator follows, leftover rows are sent, errors stop the stream.",
@@ -66,6 +70,8 @@ def main():
         "engines": [
             {"name": "QueryLifecycle", "path": "spec/QueryLifecycle.tla", "serves_properties": ["C03", "C04", "C09", "C10", "C12"],
              "kind_free_text": "TLA+ state machine of Client.Do (three goroutines, errgroup, writer, connection, faults, cancellation, next request); MC_QL*.cfg model checking, Gen_QL*.cfg behaviour generation, Trace_QL trace validation"},
+            {"name": "Frames", "path": "spec/Frames.tla", "serves_properties": ["C05"],
+             "kind_free_text": "TLA+ model of compress.Reader over abstract frame streams with alteration classes; MC_Frames*.cfg, Trace_Frames"},
             {"name": "Pool", "path": "spec/Pool.tla", "serves_properties": ["C11", "C12"],
              "kind_free_text": "TLA+ model of chpool.Pool/Client over an abstract puddle (permits, idle set, async destroy, health check, MinConns, close); MC_Pool*.cfg, Gen_Pool*.cfg, Trace_Pool"},
             {"name": "Writer", "path": "spec/Writer.tla", "serves_properties": ["C14"],
